@@ -11,12 +11,12 @@ from vf.values import show
 
 PID = "C08"
 
-FIRSTS = ["connect-ok", "connect-ok-json", "connect-ok-marshal", "connect-ok-msgpack", "connect-daemon", "connect-unknown-object", "connect-unknown-serializer", "connect-serializer-0",
+FIRSTS = ["connect-ok", "connect-ok-json", "connect-ok-marshal", "connect-ok-msgpack", "connect-daemon", "connect-unknown-object", "connect-unregistered-object", "connect-unknown-serializer", "connect-serializer-0",
           "connect-no-handshake-key", "connect-no-object-key", "connect-nondict", "connect-list", "connect-undecodable", "connect-empty-payload",
           "type-connectok", "type-connectfail", "type-invoke", "type-invoke-oneway", "type-invoke-batch", "type-result", "type-ping", "type-0", "type-7", "type-255",
           "bad-magic", "bad-version", "garbage16", "http-request", "truncated-header", "nothing"]
 VALIDATORS = ["accept", "return-none", "return-dict", "return-unserialisable", "raise-ValueError", "raise-SecurityError", "raise-PyroError", "raise-KeyError", "raise-Custom",
-              "raise-ConnectionClosedError"]
+              "raise-ConnectionClosedError", "raise-empty-ValueError", "raise-bare-PermissionError", "raise-AssertionError", "raise-StopIteration"]
 PIPELINES = [[], ["invoke"], ["oneway"], ["batch"], ["ping"], ["invoke", "invoke"], ["oneway", "invoke", "ping"]]
 MUST_REFUSE_WITH_CONNECTFAIL = ("type-", "connect-unknown-object")   # + validator raised
 
@@ -49,6 +49,14 @@ def make_run(cfg):
                 raise KeyError("validator says no (KeyError)")
             if validator == "raise-ConnectionClosedError":
                 raise errors.ConnectionClosedError("validator says no (ConnectionClosedError)")
+            if validator == "raise-empty-ValueError":
+                raise ValueError("")
+            if validator == "raise-bare-PermissionError":
+                raise PermissionError()
+            if validator == "raise-AssertionError":
+                assert data == "never-matches"
+            if validator == "raise-StopIteration":
+                raise StopIteration("validator says no (StopIteration)")
             raise targets.CustomError("validator says no (Custom)")
 
     def msg(mtype, flags, seq, serid, payload):
@@ -75,6 +83,7 @@ def make_run(cfg):
         table = {
             "connect-daemon": lambda: msg(protocol.MSG_CONNECT, 0, 1, 1, serp.dumps({"handshake": "hello", "object": core.DAEMON_NAME})),
             "connect-unknown-object": lambda: msg(protocol.MSG_CONNECT, 0, 1, 1, serp.dumps({"handshake": "hello", "object": "nope"})),
+            "connect-unregistered-object": lambda: msg(protocol.MSG_CONNECT, 0, 1, 1, serp.dumps({"handshake": "hello", "object": "gone"})),
             "connect-unknown-serializer": lambda: msg(protocol.MSG_CONNECT, 0, 1, 99, serp.dumps(ok)),
             "connect-serializer-0": lambda: msg(protocol.MSG_CONNECT, 0, 1, 0, serp.dumps(ok)),
             "connect-no-handshake-key": lambda: msg(protocol.MSG_CONNECT, 0, 1, 1, serp.dumps({"object": "obj"})),
@@ -118,6 +127,14 @@ def make_run(cfg):
             got = {"replies": [], "eof": False, "error": None, "witness": None}
 
             def attacker():
+                if first == "connect-unregistered-object":
+                    # an object that was used through an ordinary proxy and unregistered afterwards is unknown again
+                    gone = targets.LogTarget()
+                    d.register(gone, "gone")
+                    with client.Proxy("PYRO:gone@h:1") as gp:
+                        gp._pyroHandshake = "hello"
+                        gp.token("warm-up")
+                    d.unregister("gone")
                 sock = w.net.create_socket(connect=("h", 1))
                 conn = socketutil.SocketConnection(sock)
                 try:
@@ -204,10 +221,12 @@ def make_run(cfg):
                     V("method-executed-on-refused-connection|%s|%s" % (first if not first.startswith("connect-ok") else "connect-ok", validator if first.startswith("connect") else "-"), "log %r" % hits)
                 if protocol.MSG_RESULT in types:
                     V("result-sent-on-refused-connection|%s" % first, "replies %r" % (types,))
-                named = first.startswith("type-") or first == "connect-unknown-object" or (first.startswith("connect-ok") and validator.startswith("raise-")) \
+                named = first.startswith("type-") or first in ("connect-unknown-object", "connect-unregistered-object") or (first.startswith("connect-ok") and validator.startswith("raise-")) \
                     or (first == "connect-daemon" and validator.startswith("raise-"))
                 if named:
-                    reason = {"connect-unknown-object": "unknown object"}.get(first, "invalid msg type" if first.startswith("type-") else "validator says no")
+                    reason = {"connect-unknown-object": "unknown object", "connect-unregistered-object": "unknown object"}.get(first, "invalid msg type" if first.startswith("type-") else "validator says no")
+                    if validator in ("raise-empty-ValueError", "raise-bare-PermissionError", "raise-AssertionError") and first.startswith("connect"):
+                        reason = ""      # the exception carries no text: the refusal itself is what is owed
                     if validator == "raise-ConnectionClosedError" and first.startswith("connect"):
                         pass      # the daemon treats this class as 'peer went away': closing without a reply is what the code documents
                     elif not types or types[0] != protocol.MSG_CONNECTFAIL:
